@@ -822,22 +822,11 @@ pub fn run(ctx: &Ctx) -> Report {
     // yield insertion: whole programs of the other properties' corpora, suspended after every statement
     {
         use crate::metamorph::{yield_cases, Driver};
-        let mut corpus: Vec<crate::mcheck::Case> = Vec::new();
-        for n in crate::c08::nests_of_depth(1) {
-            corpus.push(crate::mcheck::Case::new("c08", crate::c08::program(&[n])));
-        }
-        corpus.extend(crate::c08::loop_try_try_nests().into_iter().map(|n| crate::mcheck::Case::new("c08", crate::c08::program(&[n]))));
-        corpus.extend(crate::c08::reentered_after_abrupt_finally_exit());
-        corpus.extend(crate::c08::recursion_from_finally().into_iter().step_by(if thorough { 1 } else { 3 }));
-        corpus.extend(crate::c08::loop_with_pair_cases().into_iter().step_by(if thorough { 1 } else { 28 }));
+        let mut corpus: Vec<crate::mcheck::Case> = crate::metamorph::standard_corpus(if thorough { 1 } else { 4 });
         if thorough {
             corpus.extend(crate::c08::nests_of_depth(2).into_iter().map(|n| crate::mcheck::Case::new("c08", crate::c08::program(&[n]))));
         }
-        corpus.extend(crate::c06::cases_for_c04(thorough).into_iter().step_by(if thorough { 1 } else { 7 }));
-        corpus.extend(crate::c07::cases_for_c04(thorough).into_iter().step_by(if thorough { 1 } else { 13 }));
-        corpus.extend(crate::c18::cases_for_c04(thorough).into_iter().step_by(if thorough { 1 } else { 5 }));
-        corpus.extend(crate::c05::cases_for_c04(false).into_iter().step_by(if thorough { 1 } else { 29 }));
-        let drivers: &[Driver] = &[Driver::Plain, Driver::Values, Driver::Interleaved];
+        let drivers: &[Driver] = &[Driver::Plain, Driver::Values, Driver::Interleaved, Driver::InExpressions];
         let cases = yield_cases("Y_program_suspended_after_every_statement", &corpus, drivers);
         let n = cases.len();
         let hooks = crate::mcheck::Hooks { attribute: &|_c, _m, _o, _mm| None, nontrivial: &|_c, m| m.out.len() >= 2, fuel: 4_000_000 };
@@ -845,9 +834,9 @@ pub fn run(ctx: &Ctx) -> Report {
         report.cov(
             "yield_insertion",
             json!({
-                "rule": "metamorphic: every program of a corpus drawn from the C05 (statements), C06 (closures), C07 (classes), C08 (exception nests, loops around try statements, re-entered try statements, recursion from finally blocks) and C18 (iteration) generators that does not use fibers itself is run inside one fiber with a `Fiber.yield` inserted before the first and after every statement of every block, function, method, lambda, loop body and try / catch / finally block, and resumed until it has finished by three drivers (plain resumes; yields carrying a value and resumes passing one; resumes alternating with another fiber that keeps locals, closures and try / catch / finally of its own across its suspensions and reports any disturbance of them); printed lines and outcome must equal M-eval's for the same statements in a fiber that is called once and never yields",
+                "rule": "metamorphic: every program of a corpus drawn from the C05 (statements), C06 (closures), C07 (classes), C08 (exception nests, loops around try statements, re-entered try statements, recursion from finally blocks) and C18 (iteration) generators that does not use fibers itself is run inside one fiber with a `Fiber.yield` inserted before the first and after every statement of every block, function, method, lambda, loop body and try / catch / finally block, and resumed until it has finished by four drivers (plain resumes; yields carrying a value and resumes passing one; resumes alternating with another fiber that keeps locals, closures and try / catch / finally of its own across its suspensions and reports any disturbance of them; plain resumes with, in addition, a yield in the middle of expressions - every call argument, literal element and right operand `e` becomes `(Fiber.yield() || e)`, so the fiber is suspended with half-evaluated expressions on its stack); printed lines and outcome must equal M-eval's for the same statements in a fiber that is called once and never yields",
                 "programs": corpus.len(),
-                "drivers": 3,
+                "drivers": 4,
                 "cases": n,
                 "executions": st.executions,
                 "distinct": st.distinct.len(),
